@@ -19,6 +19,17 @@ CFG = dict(
          "The hand-written programs and every sixth random program are executed a second time through pkg/database.DB "
          "(NewSQLTx / SQLExec / SQLQuery, the layer under the gRPC session transactions and the pgsql session) and "
          "must give identical observations. "
+         "DDL stream (n/3 random + 13 hand-written histories, harness/c13/ddl.go; NOT evaluated by the Coq model, "
+         "recorded as `CDdl k`, checked by a harness-side oracle only): 2..3 sessions over table names t1..t3 and "
+         "columns a..c issue CREATE/DROP/RENAME TABLE, ADD/DROP/RENAME COLUMN, CREATE/DROP INDEX, DROP CONSTRAINT and "
+         "INSERT inside multi-statement transactions and as autocommit, ending in COMMIT / ROLLBACK / failed statement / "
+         "rejected COMMIT / closed session, read-only transactions included, with a cold catalog cache (fresh engine, "
+         "cache warmed only by explicit autocommit read-only queries of the history) and a warm one; at random points "
+         "and at the end every table name is probed from a fresh read-write transaction that is cancelled (never a "
+         "read-only one: it would populate the cache) and from every open transaction: existence, columns, usable "
+         "indexes, CHECK enforced, rows; oracle: catalog at BEGIN + own DDL for open transactions, committed "
+         "transactions only for fresh ones, serial replay of a committing transaction's statements on the committed "
+         "state. A DDL case is non-trivial when it executed at least one successful catalog statement. "
          "A case is non-trivial when it has an explicit transaction with >= 2 statements and (a statement of another "
          "session inside it, or a failed statement, or a rejected COMMIT, or a savepoint operation); distinct by the "
          "whole case term",
@@ -27,7 +38,8 @@ CFG = dict(
         "BEGIN/COMMIT/ROLLBACK/SAVEPOINT/ROLLBACK TO/RELEASE, INSERT/UPSERT/UPDATE/DELETE/SELECT on integer tables "
         "without secondary indexes (stmt.go), OngoingTx snapshots, write-set, read-set and checkPreconditions "
         "(ongoing_tx.go, ongoing_tx_keyreader.go); a table is modelled as its primary index (pk -> tx id, deleted, v)",
-        "NOT modelled (outside the theorems): DDL inside transactions and catalog-cache invalidation, secondary / "
+        "NOT modelled in Coq (outside the theorems): DDL and the engine's catalog cache -- covered by the DDL stream "
+        "and its Go oracle only (direct falsifier, no theorem); secondary / "
         "unique indexes, other column types, LIMIT/OFFSET/joins, historical queries, int64 overflow of v and id "
         "(values stay small), the catalog snapshot in checkPreconditions (never written here), MVCC read-set size "
         "limit, real goroutine concurrency (sessions are interleaved at statement granularity; each Exec/Query is "
